@@ -1012,6 +1012,14 @@ fn jump_into_block_inputs(out: &mut Vec<Input>) {
             _ => unreachable!(),
         }
     }
+    fn other(kind: &str) -> &'static str {
+        match kind {
+            "for" => "case",
+            "forstep" => "caseelse",
+            "case" => "for",
+            _ => "forstep",
+        }
+    }
     let blocks = ["for", "forstep", "case", "caseelse"];
     // the nest around the label, outermost first
     let mut nests: Vec<Vec<&str>> = blocks.iter().map(|b| vec![*b]).collect();
@@ -1047,6 +1055,10 @@ fn jump_into_block_inputs(out: &mut Vec<Input>) {
                 ("sibling", format!("{}{}PRINT \"after\"\n", wrap(nest[0], "S", &once(jump)), target(""))),
                 ("sibling-behind", format!("{}{}PRINT \"after\"\n", target(""), wrap(nest[0], "S", &once(jump)))),
                 ("inside", format!("{}PRINT \"after\"\n", target(&once(jump)))),
+                // the jump in a block of the OTHER kind (FOR <-> SELECT CASE) at the same depth: the two headers push on
+                // different stacks (after a wave-10 seed: block identity degenerated to nesting depth)
+                ("sibling-other", format!("{}{}PRINT \"after\"\n", wrap(other(nest[0]), "S", &once(jump)), target(""))),
+                ("sibling-other-behind", format!("{}{}PRINT \"after\"\n", target(""), wrap(other(nest[0]), "S", &once(jump)))),
             ];
             if nest.len() == 2 {
                 // the jump in the enclosing block, the label one block further in
